@@ -155,6 +155,11 @@ pub fn rule_for(prop: Prop) -> &'static str {
     }
 }
 
+/// journal the cases of the engine about to run (crash attribution by the supervising parent)
+pub fn journal_for(ctx: &Ctx, engine: &str) {
+    set_journal(Some((format!("{}/work/journal", ctx.verif_dir), engine.to_string())));
+}
+
 pub fn finish<T: serde::Serialize + Clone>(
     ctx: &Ctx,
     rule: &str,
@@ -223,6 +228,7 @@ pub fn check_e1(ctx: &Ctx, prop: Prop, out: &mut Outcome, q: u32, t: u32) {
     let profile = profile_for(prop, ctx.tier == Tier::Thorough);
     let strat = move || case_strategy(&profile);
     let exec = move |c: &Case| exec_case(c, prop);
+    journal_for(ctx, "e1");
     let (acc, found) = run_engine(&strat, &exec, &|c: &Case| c.clone(), &ctx.id, ctx.seed, prop as u64, ctx.workers, ctx.cases(q, t), &ctx.known);
     finish(ctx, rule_for(prop), acc, found, out, "e1", &exec, &|c, f| minimize(c, f));
 }
@@ -252,6 +258,7 @@ pub fn check_c13(ctx: &Ctx, out: &mut Outcome, q: u32, t: u32) {
     profile.w_clone = 0;
     profile.hashers = ALL_HASHERS.to_vec();
     let strat = move || c13_strategy(&profile);
+    journal_for(ctx, "c13");
     let (acc, found) = run_engine(&strat, &exec_c13, &|c: &C13Case| c.case.clone(), &ctx.id, ctx.seed, 13, ctx.workers, ctx.cases(q, t), &ctx.known);
     let rule = "generated history H plus generated insertion points and read-only calls (peek, peek_mut without write, contains, len/cap/is_empty, peek_lru/peek_mru variants, get_mru, every iterator family fully or partially consumed, per-segment accessors, Debug); H runs on A, H with insertions on B; non-trivial = an inserted call targeted a resident non-MRU entry and a later op evicted something; distinct by case hash";
     let shrink = |t: &C13Case, f: &dyn Fn(&C13Case) -> bool| -> C13Case {
@@ -280,6 +287,7 @@ pub fn check_c16(ctx: &Ctx, out: &mut Outcome, q: u32, t: u32) {
     profile.w_clone = 1;
     profile.max_ops = if ctx.tier == Tier::Thorough { 80 } else { 30 };
     let strat = move || c16_strategy(&profile);
+    journal_for(ctx, "c16");
     let (acc, found) = run_engine(&strat, &exec_c16, &|c: &C16Case| c.case.clone(), &ctx.id, ctx.seed, 16, ctx.workers, ctx.cases(q, t), &ctx.known);
     let rule = "generated prefix -> clone -> compare (capacity, every segment's order and values, estimator dump) -> lock-step suffix on both -> divergent suffix on / drop of one of them while the other is observed, over RawLRU (with and without callback), SegmentedCache, WTinyLFUCache and all hashers incl. RandomState; non-trivial = the clone was taken with >= 3 entries in non-insertion order and the suffix evicted; distinct by case hash";
     let shrink = |t: &C16Case, f: &dyn Fn(&C16Case) -> bool| -> C16Case {
@@ -315,6 +323,7 @@ pub fn check_c17(ctx: &Ctx, out: &mut Outcome, q: u32, t: u32) {
     profile.w_purge = 2;
     profile.kinds.retain(|(_, k)| *k != Kind::LruCbD);
     let strat = move || case_strategy(&profile);
+    journal_for(ctx, "c17");
     let (acc, found) = run_engine(&strat, &exec_c17, &|c: &Case| c.clone(), &ctx.id, ctx.seed, 17, ctx.workers, ctx.cases(q, t), &ctx.known);
     let rule = "the same generated history (incl. clone, purge, resize) on six instances whose inner lists use different BuildHashers (two FNV seeds, identity, constant-zero, two differently seeded RandomStates, mixed per list); every result and state view must be identical across instances (W-TinyLFU: same key hasher and pinned sketch seed, so the verdicts are the same); non-trivial = at least one eviction and, for cloneable kinds, a clone of >= 3 entries; distinct by case hash";
     finish(ctx, rule, acc, found, out, "c17", &exec_c17, &|c, f| minimize(c, f));
@@ -341,6 +350,7 @@ pub fn check_tinylfu(ctx: &Ctx, prop: E7Prop, out: &mut Outcome, q: u32, t: u32,
         d.cfg.sketch_seed = Some(h);
         d
     };
+    journal_for(ctx, "tinylfu");
     let (acc, found) = run_engine(&strat, &exec, &hash_case, &ctx.id, ctx.seed, 0x711 + prop as u64, ctx.workers, ctx.cases(q, t), &ctx.known);
     let shrink = |c: &TCase, f: &dyn Fn(&TCase) -> bool| -> TCase {
         let mut cur = c.clone();
@@ -356,12 +366,7 @@ pub fn check_tinylfu(ctx: &Ctx, prop: E7Prop, out: &mut Outcome, q: u32, t: u32,
         }
         cur
     };
-    let mut acc = acc;
-    // samples: the component cases themselves
-    acc.samples.clear();
     finish(ctx, rule, acc, found, out, "tinylfu", &exec, &shrink);
-    let th2 = ctx.tier == Tier::Thorough;
-    push_component_samples(out, &tcase_strategy(th2), ctx.seed);
 }
 
 pub fn check_sampled(ctx: &Ctx, prop: E7Prop, out: &mut Outcome, q: u32, t: u32, rule: &str) {
@@ -373,7 +378,8 @@ pub fn check_sampled(ctx: &Ctx, prop: E7Prop, out: &mut Outcome, q: u32, t: u32,
         d.cfg.sketch_seed = Some(fnv64(serde_json::to_string(c).unwrap_or_default().as_bytes()));
         d
     };
-    let (mut acc, found) = run_engine(&strat, &exec, &hash_case, &ctx.id, ctx.seed, 0x720 + prop as u64, ctx.workers, ctx.cases(q, t), &ctx.known);
+    journal_for(ctx, "sampled");
+    let (acc, found) = run_engine(&strat, &exec, &hash_case, &ctx.id, ctx.seed, 0x720 + prop as u64, ctx.workers, ctx.cases(q, t), &ctx.known);
     let shrink = |c: &SCase, f: &dyn Fn(&SCase) -> bool| -> SCase {
         let mut cur = c.clone();
         let mut i = 0;
@@ -388,9 +394,7 @@ pub fn check_sampled(ctx: &Ctx, prop: E7Prop, out: &mut Outcome, q: u32, t: u32,
         }
         cur
     };
-    acc.samples.clear();
     finish(ctx, rule, acc, found, out, "sampled", &exec, &shrink);
-    push_component_samples(out, &scase_strategy(th), ctx.seed);
 }
 
 /// two generated component cases written out as evidence samples
@@ -520,16 +524,50 @@ pub fn check_c05(ctx: &Ctx, out: &mut Outcome) {
         }
     }
     // (b) drawn tuples
+    journal_for(ctx, "e6");
     let (acc, found) = run_engine(&call_strategy, &e6_report, &|c: &e6::Call| {
         let mut d = Case { kind: Kind::Lru, cfg: Cfg::simple(1), keys: KeyMode::Tracked, alphabet: 0, ops: vec![] };
         d.cfg.sketch_seed = Some(fnv64(serde_json::to_string(c).unwrap_or_default().as_bytes()));
         d
     }, &ctx.id, ctx.seed, 0xe6, ctx.workers, ctx.cases(600, 20000), &ctx.known);
-    let mut acc = acc;
-    acc.samples.clear();
     finish(ctx, "", acc, found, out, "e6", &e6_report, &|c, _f| c.clone());
     // (c) operation sequences
     check_e1(ctx, Prop::C05, out, 1500, 40000);
     check_tinylfu(ctx, E7Prop::C05, out, 800, 20000, "");
     check_sampled(ctx, E7Prop::C05, out, 800, 20000, "");
+}
+
+// ------------------------------------------------------------------------------ C18
+
+pub fn exec_e4(c: &Case) -> CaseReport {
+    crate::e4::run_e4::<TKey>(c)
+}
+
+pub fn check_c18(ctx: &Ctx, out: &mut Outcome, q: u32, t: u32) {
+    let th = ctx.tier == Tier::Thorough;
+    let mut profile = Profile::base(th);
+    profile.max_ops = if th { 30 } else { 12 };
+    profile.hashers = vec![HSpec::Fnv(1), HSpec::Fnv(2), HSpec::Ident, HSpec::Zero, HSpec::Random];
+    profile.kinds = vec![(2, Kind::Lru), (3, Kind::LruCb), (1, Kind::LruCbD), (3, Kind::Seg), (4, Kind::TwoQ), (4, Kind::Arc), (4, Kind::Wtl)];
+    profile.w_clone = 3;
+    profile.w_purge = 2;
+    profile.w_resize = 3;
+    profile.w_remove = 7;
+    profile.w_iter = 1;
+    *crate::e4::E4_ACC.lock().unwrap() = None;
+    let strat = move || case_strategy(&profile);
+    journal_for(ctx, "e4");
+    let (acc, found) = run_engine(&strat, &exec_e4, &|c: &Case| c.clone(), &ctx.id, ctx.seed, 0xe4, ctx.workers, ctx.cases(q, t), &ctx.known);
+    let rule = "generated histories (<= 12 ops quick / <= 30 thorough, incl. clone, purge, resize, callback-carrying RawLRU) over all cache kinds; for each history EVERY call into user code (Hash, Eq, Clone, Drop of keys and values, BuildHasher::build_hasher, Hasher::finish, KeyHasher, eviction callback) is enumerated as a crash point: the history is re-run once per index with a panic injected there, the remaining ops run, the cache is inspected and dropped; non-trivial history = at least one injected panic fired inside a mutating library call; distinct by case hash";
+    finish(ctx, rule, acc, found, out, "e4", &exec_e4, &|c, f| minimize(c, f));
+    out.level = "fault_enumeration";
+    if let Some(st) = crate::e4::E4_ACC.lock().unwrap().take() {
+        out.coverage.insert("crash_points_enumerated".into(), json!(st.armed_runs));
+        out.coverage.insert("injected_panics_fired".into(), json!(st.fired));
+        out.coverage.insert("fired_inside_mutating_call".into(), json!(st.fired_in_mutating_op));
+        out.coverage.insert("followup_panics_tolerated".into(), json!(st.followup_panics));
+        out.coverage.insert("excluded_shrinking_resize_after_panic".into(), json!(st.excluded_resize_after_panic));
+        let m: Map<String, Value> = st.by_class.iter().map(|((k, p), v)| (format!("{}/{}", k.short(), p), json!(v))).collect();
+        out.coverage.insert("fired_by_kind_and_user_code".into(), Value::Object(m));
+    }
 }
